@@ -16,7 +16,13 @@ _N = 0
 def root() -> str:
     global _ROOT
     if _ROOT is None:
-        base = os.environ.get('VSYM_SCRATCH') or os.path.join(os.environ.get('TMPDIR', '/tmp'), 'vsym-scratch')
+        base = os.environ.get('VSYM_SCRATCH')
+        if not base:
+            shm = '/dev/shm'
+            if os.path.isdir(shm) and os.access(shm, os.W_OK):
+                base = os.path.join(shm, 'vsym-scratch')  # memory backed: directory operations are much cheaper
+            else:
+                base = os.path.join(os.environ.get('TMPDIR', '/tmp'), 'vsym-scratch')
         _ROOT = os.path.join(base, 'p%d' % os.getpid())
         os.makedirs(_ROOT, exist_ok=True)
         atexit.register(cleanup)
